@@ -220,8 +220,9 @@ def insert_canaries(text, pm):
     marks = []
     # find positions: for each ("ins", label, "header") piece, the next '{' after the piece end
     pos_list = []
+    unverified = set(tag[1] for (a, b, tag) in pm if tag[0] == "ins" and len(tag) > 2 and tag[2] == "assume-body")
     for (a, b, tag) in pm:
-        if tag[0] == "ins" and len(tag) > 2 and tag[2] == "header":
+        if tag[0] == "ins" and len(tag) > 2 and tag[2] == "header" and tag[1] not in unverified:
             j = text.find("{", b)
             pos_list.append((j + 1, tag[1]))
     pos_list.sort()
